@@ -7,14 +7,37 @@ import (
 func allChecks() []*Check {
 	return []*Check{
 		{
+			ID: "C20", Title: "The connection password never reaches the log",
+			Harnesses: []Harness{
+				{Pkg: "client", Func: "VerifC20Password", Quick: map[string]int{"PL": 2}, Thorough: map[string]int{"PL": 4}, Asserts: []string{"password-not-in-log", "pass-line-masked", "masked-pass-line-logged-once", "something-was-logged"}},
+				{Pkg: "client", Func: "VerifC20Password", Quick: map[string]int{"PL": 1, "LONG": 1}, Thorough: map[string]int{"PL": 2, "LONG": 1}, Asserts: []string{"password-not-in-log"}, Note: "password of 521..524 bytes"},
+			},
+			Bounds:      map[string]string{"quick": "passwords of 1..2 symbolic bytes over a 16-symbol alphabet (3-9 # $ ~ ^ _ = + @ ?) disjoint from the library's own log texts (and the same behind a 520-byte filler); one whole session per path: dial ok / refused, negotiation on/off, tracking on/off, flood control off (Flood=true), the k-th socket write failing (k = none,0..3), two received lines, Close; every format string and every string / error argument of every logger call is inspected", "thorough": "passwords up to 4 symbolic bytes"},
+			Outside:     []string{"passwords that are substrings of texts the library logs anyway (e.g. '*')", "loggers that look at non-string arguments", "error texts produced by the real network stack (the dialler is a stub)"},
+			Stubs:       []string{"proxy dialler stub, in-memory wire, bufio model, coroutine scheduler (goroutines run until they block)"},
+			QuickBudget: 5 * time.Minute, ThorBudget: 30 * time.Minute,
+		},
+		{
+			ID: "C19", Title: "Capability negotiation asks only for what both sides support and always ends",
+			Harnesses: []Harness{
+				{Pkg: "client", Func: "VerifC19Negotiation", Asserts: []string{"requests-exactly-wanted-and-advertised", "end-on-empty-intersection", "end-after-nak", "held-iff-acked", "end-after-ack-without-sasl", "not-held-after-minus-ack", "sasl-starts-after-ack-only", "sasl-payload-after-server-asked", "end-after-sasl-outcome", "end-after-later-ack"}},
+				{Pkg: "client", Func: "VerifC19Split", Asserts: []string{"split-every-name-once", "split-names-intact-in-order", "split-line-within-limit"}},
+			},
+			Bounds:      map[string]string{"quick": "universe of 2 symbolic capability names (1..2 bytes) + sasl; every subset wanted / advertised / acknowledged, NAK, later ACK of -cap; SASL none / PLAIN / EXTERNAL with credentials of 0..1 symbolic bytes and outcomes 903/904/908 (real go-sasl clients and an exact base64 model); request splitting with 4 names of lengths 220, 216..224, 1..3, 440", "thorough": "same"},
+			Outside:     []string{"CAP LS continuation lines and capability values (sasl=PLAIN)", "larger universes, longer credentials", "SASL exchanges with further server challenges"},
+			Stubs:       []string{"encoding/base64 StdEncoding: exact symbolic model", "sort.Strings model", "go-sasl executed from its own SSA"},
+			QuickBudget: 5 * time.Minute, ThorBudget: 30 * time.Minute,
+		},
+		{
 			ID: "C18", Title: "Registration and keep-alive follow the protocol",
 			Harnesses: []Harness{
 				{Pkg: "client", Func: "VerifC18Register", Asserts: []string{"registration-line-count", "registration-line"}},
 				{Pkg: "client", Func: "VerifC18Dial", Quick: map[string]int{"HL": 2}, Thorough: map[string]int{"HL": 4}, Asserts: []string{"dialled-address", "register-once-before-connect-returns", "failed-connect-fires-nothing", "registration-sent"}},
 				{Pkg: "client", Func: "VerifC18Ping", Quick: map[string]int{"TL": 3}, Thorough: map[string]int{"TL": 6}, Asserts: []string{"pong-same-token", "ping-token-parsed"}},
+				{Pkg: "client", Func: "VerifC18LongPing", Asserts: []string{"pong-same-token", "one-line-received"}},
 				{Pkg: "client", Func: "VerifC18Keepalive", Asserts: []string{"monitor:ping-goroutine-started", "monitor:no-ping-goroutine", "monitor:one-ping-per-tick"}},
 			},
-			Bounds: map[string]string{"quick": "registration: CAP negotiation on/off, password 0..2 bytes, nick/ident/name 1..2 bytes (all bytes but CR/LF), tracking on/off; dial: host 1..2 ASCII bytes, without port / with :port (0..2 digits) / bracketed IPv6 with port, SSL on/off, dial ok/refused, through a harness proxy dialer; PING tokens 0..3 bytes as trailing or middle parameter, with/without source; PingFreq any value in [-5, 2^40]",
+			Bounds: map[string]string{"quick": "registration: CAP negotiation on/off, password 0..2 bytes, nick/ident/name 1..2 bytes (all bytes but CR/LF), tracking on/off; dial: host 1..2 ASCII bytes, without port / with :port (0..2 digits) / bracketed IPv6 with port, SSL on/off, dial ok/refused, through a harness proxy dialer; PING tokens 0..3 bytes as trailing or middle parameter, with/without source, and a 4200..4202-byte token through the real recv loop; PingFreq any value in [-5, 2^40]",
 				"thorough": "host up to 4 bytes, tokens up to 6 bytes"},
 			Outside:     []string{"the direct (non-proxy) dial path and real TLS (the dialler and the handshake are stubs)", "bare or port-less bracketed IPv6 literals", "the tick period in real time; the PING payload text (fmt.Sprintf is a stub)", "tokens longer than the bound (lines beyond bufio's buffer are covered by C01's delivery harness)"},
 			Stubs:       []string{"x/net/proxy.FromURL dispatches to the harness dialer registered for scheme vtest", "crypto/tls.Client + Handshake: fails", "time.NewTicker: N queued ticks", "context model", "fmt.Sprintf arbitrary text"},
